@@ -5,8 +5,9 @@
 (* mentions them: 1-3 non-terminals) and inputs (all lists over {a,b,c} up to a length bound,    *)
 (* partial lists for generation mode), runs the direct semantics Dcg!StepD on each and prints    *)
 (* grammar, query and the expected answer sequence / ball.                                       *)
-(* Chunk (environment variable C39_CHUNK = "k/n") restricts a run to the grammars whose index    *)
-(* is k modulo n, so that the thorough tier can be generated and replayed piecewise.             *)
+(* The environment variables C39_CHUNK_K / C39_CHUNK_N (single digits) restrict a run to the    *)
+(* cases whose size hash is K modulo N, so that the thorough tier is generated and replayed       *)
+(* piecewise.                                                                                    *)
 EXTENDS Dcg, Json, IOUtils
 
 CONSTANT Tier
@@ -104,10 +105,12 @@ WithHelpers(rules, bd) ==
   IN IF Mentions(bd, "nt2") THEN { rules \o v \o n3 : v \in Nt2Variants } ELSE { rules \o n3 }
 
 NT1X == C1("nt1", X)
+(* the rule under test followed / preceded by a second rule for nt1 (clause order matters for bodies with a cut: *)
+(* quick restricts the "preceded" order to those), alone, and with a structured head                          *)
 RuleGrammars ==
   UNION { UNION { WithHelpers(rs, bd) :
-                  rs \in { << R(NT1X, <<>>, bd), R(C1("nt1", c), <<>>, Tc) >>,
-                           << R(C1("nt1", c), <<>>, Tc), R(NT1X, <<>>, bd) >> } \cup
+                  rs \in { << R(NT1X, <<>>, bd), R(C1("nt1", c), <<>>, Tc) >> } \cup
+                         (IF Tier = "quick" /\ ~Mentions(bd, "!") THEN {} ELSE { << R(C1("nt1", c), <<>>, Tc), R(NT1X, <<>>, bd) >> }) \cup
                          (IF Tier = "quick" THEN {} ELSE { << R(NT1X, <<>>, bd) >>, << R(C1("nt1", C1("f", X)), <<>>, bd) >> }) }
           : bd \in RuleBodies }
 PbGrammars ==
@@ -124,16 +127,17 @@ E1 == V("E1")  E2 == V("E2")  TT == V("T")  LL == V("L")  RR == V("R")  GG == V(
 Partial == { LL, PListOf(<<a>>, TT), ListOf(<<E1>>), ListOf(<<a, E1>>), PListOf(<<E1, b>>, TT), ListOf(<<E1, E2>>) }
 MaxLen == IF Tier = "quick" THEN 3 ELSE 4
 
+QL == IF Tier = "quick" THEN 1 ELSE 2
 Queries(cs) ==
   LET bd == cs.body IN
   IF cs.kind = "rule" THEN
        { [qk |-> "p3", q |-> C3("phrase", bd, l, RR)] : l \in Lists(MaxLen) \cup Partial }
-       \cup { [qk |-> "p2", q |-> C2("phrase", bd, l)] : l \in Lists(2) \cup Partial }
-       \cup { [qk |-> "p3", q |-> C3("phrase", C1("nt1", b), l, RR)] : l \in Lists(2) \cup {LL} }
+       \cup { [qk |-> "p2", q |-> C2("phrase", bd, l)] : l \in Lists(QL) \cup Partial }
+       \cup { [qk |-> "p3", q |-> C3("phrase", C1("nt1", b), l, RR)] : l \in Lists(QL) \cup {LL} }
        \cup { [qk |-> "var", q |-> Conj(Eq(GG, bd), C3("phrase", GG, l, RR))] : l \in Lists(1) \cup {LL} }
   ELSE { [qk |-> "p3", q |-> C3("phrase", bd, l, RR)] : l \in Lists(MaxLen - 1) \cup Partial }
        \cup { [qk |-> "var", q |-> Conj(Eq(GG, bd), C3("phrase", GG, l, RR))] : l \in Lists(MaxLen - 1) \cup Partial }
-       \cup { [qk |-> "p2", q |-> C2("phrase", bd, l)] : l \in Lists(2) }
+       \cup { [qk |-> "p2", q |-> C2("phrase", bd, l)] : l \in Lists(QL) }
        \* phrase/3 in a context with an outer choice point: a cut in the body must stay local to phrase/3
        \cup { [qk |-> "ctx", q |-> Semi(C3("phrase", bd, l, RR), Eq(RR, A("z")))] : l \in Lists(2) \cup {LL} }
        \cup { [qk |-> "ctxv", q |-> Conj(Eq(GG, bd), Semi(C3("phrase", GG, l, RR), Eq(RR, A("z"))))] : l \in Lists(1) }
